@@ -22,22 +22,29 @@ def _outcome_values(prog, lf, assume, mut_params):
     an = prog.analysis(lf, assume)
     if an is None:
         return None
-    leaves = an.ret_leaves()
+    ps = an.paths()
+    leaves = [(t, st) for t, st, _ in ps] if ps is not None else an.ret_leaves()
     if not leaves:
         return None
+    from .prover import Prover
+    pv = Prover(an)
     res = {}
     for i in mut_params:
         lv = (("M", T.param(i)), ())
-        oks, errs, other = set(), set(), False
+        init = T.deref(T.param(i))
+        oks, errs, other = [], set(), False
         for t, st in leaves:
             v = an.read(st, lv)
             if t.op == "agg" and t.args[3] in ("Ok", "Some"):
-                oks.add(v)
+                oks.append((v, st))
             elif t.op == "agg" and t.args[3] in ("Err", "None"):
                 errs.add(v)
             else:
                 other = True
-        okv = next(iter(oks)) if len(oks) == 1 and not other and prog._closed(next(iter(oks))) else None
+        okset = {v for v, _ in oks}
+        okv = next(iter(okset)) if len(okset) == 1 and not other and prog._closed(next(iter(okset))) else None
+        if okv is None and oks and not other and all(pv.lt(init, v, st.facts) for v, st in oks):
+            okv = Term("adv", init)   # every success path leaves the cursor strictly beyond where it started
         errv = next(iter(errs)) if len(errs) == 1 and not other and prog._closed(next(iter(errs))) else None
         res[i] = (okv, errv, bool(oks))
     return res
@@ -98,6 +105,10 @@ def apply_effect_summary(prog, an, st, site, lf, callee, generics, args, arg_lvs
                 else:
                     new_ok = Term("classsel", cls, vals["ELF32"], vals["ELF64"])
         new_err = prog.subst(an, st, errv, sub_args) if errv is not None else None
+        if new_ok is not None:
+            for x in new_ok.subterms():
+                if x.op == "bin" and x.args[0] == "Add":
+                    prog.noovf.add(x)   # cursor of successful checked reads
         if new_ok is None and has_ok:
             new_ok = T.fresh(site, "arg%d:ok" % i)
         if new_ok is None:
